@@ -1,21 +1,20 @@
-\* C11 quick A: every module graph over 3 modules (<= 2 requires each, in module
-\* order of their targets; form and
-\* load-time bump of an edge fixed by its position), every form of requiring
-\* the first module followed by the bumps it makes possible
+\* C11 quick C: bundled modules under every spelling of their name (sys is
+\* loaded by the interpreter's start-up code, stat is not), every importer
+\* program of <= 3 commands; one user module for contrast (exact name only)
 CONSTANTS
   Interps = {"i1"}
   UnwindOnFailure = TRUE
   DetachCallerEnv = TRUE
   Mode = "c11"
-  ModSeq <- Mods3
-  MaxOut = 2
+  ModSeq <- Mods2
+  MaxOut = 0
   GenRot = TRUE
   GenBack = "all"
-  GenSorted = TRUE
+  GenSorted = FALSE
   MaxCtr = 1
   LoadCap = 2
-  MaxReq = 2
-  CmdsOf <- C11Entry
+  MaxReq = 3
+  CmdsOf <- C11Spell
   Export = TRUE
 SPECIFICATION Spec
 INVARIANT TypeOK
@@ -30,4 +29,5 @@ PROPERTY DefsPersist
 PROPERTY Isolation
 PROPERTY LoadOnlyInLoadStep
 PROPERTY BindsExactly
+PROPERTY Terminates
 CHECK_DEADLOCK FALSE
